@@ -16,6 +16,11 @@ def encList (l : List Str) : String := "|".intercalate (l.map encStr)
 
 def decBool (f : String) : Bool := f == "1"
 
+def decNats (f : String) : List Nat :=
+  if f.isEmpty then [] else (f.splitOn ",").map (fun t => t.toNat!)
+
+def tocAnchor (i : Nat) : Str := ("<a href=\"#k" ++ toString i ++ "\">t" ++ toString i ++ "</a>").toList
+
 def handle (fields : List String) : String :=
   match fields with
   | ["escape", q, s] => encStr (escape (decBool q) (decStr s))
@@ -28,6 +33,10 @@ def handle (fields : List String) : String :=
   | ["fold", s] => encStr ((decStr s).flatMap foldChar)
   | ["isspace", s] => encStr ((decStr s).map (fun c => if isSpace c then '1' else '0'))
   | ["norm", s] => encStr (norm (decStr s))
+  | ["toc", lv] => encStr (printEvs tocAnchor (renderToc (decNats lv)))
+  | ["toc_check", lv] =>
+    let l := decNats lv
+    if checkEvs (renderToc l) [] [] == some ([], ancSpec l) then "ok" else "bad"
   | ["ping"] => "pong"
   | _ => "bad-op"
 
